@@ -121,6 +121,11 @@ check("C09", "exploration",
       "Trusted: rustc/cargo as installed; the harness' known-class predicates. 90 definitions quick / 1500 thorough.",
       "grammar-based generation + compile-checking of generator output (differential across front-ends)", "DESIGN.md §4 C09, §5 D11")
 
+check("C08", "exploration",
+      "For 12 (quick) / 120 (thorough) generated definitions outside the generator's known-finding classes, the harness emits - from its own IDL model - a driver (implementation of the generated server trait, calls of the generated client stubs) and builds it together with the generated modules; client and server then talk over an in-process loop-back whose two directions are recorded. proptest drives 400 (quick) / 3000 cases per definition: type-directed argument / reply / error values x modes {call, more, oneway}. Oracle: wire request (method name, flags, parameters in the IDL's JSON shape under a type-directed comparison), equality of what the implementation received, wire replies / declared errors equal to the scripted JSON, typed equality at the client (reply struct / ErrorKind variant), and InvalidParameter for raw requests with a required member dropped or a leaf retyped.",
+      "Trusted: the harness' IDL model and value generator, rustc. A driver that does not compile against a generated module is reported as a violation only when the diagnostics lie in generated/driver modules (the bindings' shape differs from the IDL's); other build failures are inconclusive.",
+      "round-trip / differential testing of generated client vs generated server against the IDL model (proptest values)", "DESIGN.md §4 C08")
+
 ALL = ["C%02d" % i for i in range(1, 21)]
 
 NOT_BUILT_REASON = "check not built yet in this round (design in DESIGN.md §4); not claimed until it exists and is validated"
